@@ -8,6 +8,7 @@ CONSTANTS
   Fmts = {"bc"}
   NFiles = {1}
   Lazy = {FALSE}
+  Touches = {"lookup", "getitem"}
   Variant = "tie_first"
 INVARIANT TypeOK
 INVARIANT Inv_C03_Nearest
